@@ -12,7 +12,7 @@
            Outside the guard at W = 32 lay finding F8 (repaired): [C03_w32_former_witness_repaired]. *)
 From Coq Require Import NArith ZArith List Bool.
 From SFV Require Import Base.Bytes Msgpack.Tree Gen.CodesGen Write.Writer Write.WSpec Write.Grammar
-  Write.WGuard Write.WriteProofs Write.GrammarProofs.
+  Write.WGuard Write.WriteProofs Write.GrammarProofs Base.RsPrelude Gen.StateGen Write.StateGenEq.
 Import ListNotations.
 Open Scope N_scope.
 
@@ -131,3 +131,47 @@ Proof.
   injection E as <- <- <-. do 3 eexists. split; [exact H|].
   repeat split; try reflexivity. discriminate.
 Qed.
+
+(** * The state machine of the model IS the code (tie by translation, T8)
+
+    [Gen/StateGen.v] is regenerated on every run from provider/src/write/state.rs by translators/rs2v:
+    every function of [State], [ObjectState], [ArrayState] mechanically translated (state-passing, the
+    Rust [Vec] in push order, [usize] arithmetic at width [W] wrapping or panicking).  The theorems below
+    say that the functions the C02/C03 theorems are about compute exactly that, for EVERY state, stack,
+    declared length, pointer width and overflow mode ([agree1]/[agree2]: accepted with the same new
+    state and stack; or rejected with the same status and state and stack left exactly as they were;
+    or both panic).  [conv] forgets the record wrappers, [conv_stack] reverses the stack. *)
+Theorem C03_code_write_string : forall W trap s,
+  agree1 s (State_write_string W trap s) (st_write_string W trap (conv s)).
+Proof. exact gen_write_string_eq. Qed.
+
+Theorem C03_code_write_non_string_scalar : forall W trap s,
+  agree1 s (State_write_non_string_scalar W trap s) (st_write_non_string_scalar W trap (conv s)).
+Proof. exact gen_write_non_string_scalar_eq. Qed.
+
+Theorem C03_code_start_object : forall W trap s len stk,
+  agree2 s stk (State_start_object W trap s len stk) (st_start W trap (Object len 0) (conv s) (conv_stack stk)).
+Proof. exact gen_start_object_eq. Qed.
+
+Theorem C03_code_start_array : forall W trap s len stk,
+  agree2 s stk (State_start_array W trap s len stk) (st_start W trap (Array len 0) (conv s) (conv_stack stk)).
+Proof. exact gen_start_array_eq. Qed.
+
+Theorem C03_code_finish_object : forall W trap s stk,
+  agree2 s stk (State_finish_object W trap s stk) (st_finish_object (conv s) (conv_stack stk)).
+Proof. exact gen_finish_object_eq. Qed.
+
+Theorem C03_code_finish_array : forall W trap s stk,
+  agree2 s stk (State_finish_array W trap s stk) (st_finish_array (conv s) (conv_stack stk)).
+Proof. exact gen_finish_array_eq. Qed.
+
+(** What the agreement relations say, spelled out (so that they cannot be weakened unnoticed). *)
+Theorem C03_code_agree_meaning : forall s stk g h,
+  agree2 s stk g h <->
+  match g, h with
+  | GOk (s', stk', c), (SOk t, hstk) => c = WR_Ok /\ conv s' = t /\ conv_stack stk' = hstk
+  | GOk (s', stk', c), (SErr c', hstk) => c = c' /\ c <> WR_Ok /\ s' = s /\ stk' = stk /\ hstk = conv_stack stk
+  | GPanic _, (SPanic _, _) => True
+  | _, _ => False
+  end.
+Proof. intros. reflexivity. Qed.
